@@ -53,7 +53,7 @@ def run_demo():
         shutil.rmtree(tmp, ignore_errors=True)
         shutil.copytree(demo, tmp)
         gm = open(os.path.join(tmp, "go.mod")).read()
-        gm = re.sub(r"=> /tmp/wt[24]?/C\d\d", "=> " + wt, gm)
+        gm = re.sub(r"=> /tmp/wt[245]?/[CX]\d+", "=> " + wt, gm)
         open(os.path.join(tmp, "go.mod"), "w").write(gm)
         shutil.copy(os.path.join(wt, "go.sum"), os.path.join(tmp, "go.sum"))
         rc2, out2 = sh("bash -c '%s test -count=1 ./... > /tmp/vs-out-%s%s.txt 2>&1; echo $?'" % (GO, pid, var), cwd=tmp, timeout=1800)
@@ -100,13 +100,14 @@ print(json.dumps({k: v for k, v in res.items() if k != "demo_output_with_change_
 if not res["demo_passes_without_change"]:
     print(out0)
 if ok:
-    dst = "/verif/seeded/%s-%s" % (pid, NAME)
+    PROP = os.environ.get("SEED_PROP", pid)
+    dst = "/verif/seeded/%s-%s" % (PROP, NAME)
     shutil.rmtree(dst, ignore_errors=True)
     os.makedirs(dst)
     shutil.copy(os.path.join(src, "patch.diff"), dst)
     shutil.copytree(os.path.join(src, "demo"), os.path.join(dst, "demo"))
     meta = json.load(open(os.path.join(src, "meta.json")))
-    out_meta = {"breaks_property": pid, "summary": meta.get("summary"), "needs_to_manifest": meta.get("needs_to_manifest"),
+    out_meta = {"breaks_property": PROP, "summary": meta.get("summary"), "needs_to_manifest": meta.get("needs_to_manifest"),
                 "files_changed": meta.get("files_changed"), "author": "independent sub-agent given only the property text and a scratch worktree",
                 "confirmed_by_me": {"how": "lib/verify_seed.py in scratch worktree " + wt + ": git apply; go build (with and without -tags verif); full existing suite `go1.26 test -vet=off -count=1 ./...`; demonstration run with and without the change",
                                     **{k: res[k] for k in ("patch_applies", "builds_with_and_without_tag", "suite_passes_with_change", "demo_fails_with_change", "demo_passes_without_change")}},
